@@ -689,38 +689,76 @@ Proof.
   rewrite (Hcg 1) by lia. now rewrite mrun_nil.
 Qed.
 
+Lemma len_repeat x n : len (repeat x (N.to_nat n)) = n.
+Proof. unfold len. rewrite repeat_length. apply Nnat.N2Nat.id. Qed.
+
+Lemma record_quals_writer seq quals : record_quals (len seq) quals = writer_quals seq quals.
+Proof. unfold record_quals, writer_quals, len. destruct quals; [|reflexivity]. now rewrite Nnat.Nat2N.id. Qed.
+
+Lemma record_quals_len rl quals : len (record_quals rl quals) = rl <-> (quals = [] \/ len quals = rl).
+Proof.
+  unfold record_quals. destruct quals as [|q quals].
+  - rewrite len_repeat. split; [now left|reflexivity].
+  - split; [now right|]. intros [H|H]; [discriminate|assumption].
+Qed.
+
 Corollary roundtrip_ok :
   forall sm refseq seq quals ops start,
     valid_sm sm -> Forall (fun o => 0 < snd o) ops -> read_len ops = len seq ->
-    1 <= start -> start + ref_len ops <= len refseq + 1 ->
+    seq <> [] -> (quals = [] \/ len quals = len seq) ->
+    1 <= start -> start <= len refseq -> start + ref_len ops <= len refseq + 1 ->
     cigar_to_features true refseq seq (writer_quals seq quals) ops start <> None ->
     exists s, roundtrip sm refseq seq quals ops start = ROk (simplify (norm_ops ops)) s
               /\ eq_nocase_list s seq = true.
 Proof.
-  intros sm refseq seq quals ops start Hsm Hpos Hrl Hstart Href Hc. unfold roundtrip.
+  intros sm refseq seq quals ops start Hsm Hpos Hrl Hne Hq Hstart Hin Href Hc. unfold roundtrip.
+  assert (Hrl' : record_read_length seq ops = len seq) by (destruct seq; [congruence|reflexivity]).
+  rewrite Hrl'. rewrite (proj2 (N.eqb_eq _ _) (proj2 (record_quals_len (len seq) quals) Hq)).
+  cbn [negb]. rewrite record_quals_writer.
+  replace (len refseq <? start) with false by (symmetry; apply N.ltb_ge; assumption).
+  assert (Hal : is_aligned ops = true).
+  { destruct ops; [|reflexivity]. cbn [read_len] in Hrl. symmetry in Hrl. apply len_0_nil in Hrl. contradiction. }
+  unfold record_features. rewrite Hal.
   destruct (cigar_to_features true refseq seq (writer_quals seq quals) ops start) as [ws|] eqn:Hw; [|congruence].
   destruct (features_roundtrip sm refseq seq (writer_quals seq quals) ops start ws Hsm Hpos Hrl Hstart Href Hw)
-    as (fs & s & He & Hs & Hq & Hcg).
-  rewrite He. destruct (len seq =? 0) eqn:E0.
-  - (* SEQUENCE_IS_MISSING: the read is empty, and so is the reconstruction *)
-    apply N.eqb_eq in E0. rewrite E0 in Hcg. rewrite Hcg.
-    apply len_0_nil in E0. subst seq. exists []. split; reflexivity.
-  - rewrite Hs, Hcg. exists s. split; [reflexivity | assumption].
+    as (fs & s & He & Hs & Hqq & Hcg).
+  destruct seq as [|b seq']; [congruence|]. cbv iota. rewrite He. cbv iota. rewrite Hs, Hcg.
+  exists s. split; [reflexivity | assumption].
 Qed.
 
-(* The writer rejects (Err(InvalidInput) = None) exactly when cigar_to_features does *)
+(* The writer rejects (Err(InvalidInput)) exactly when the quality scores are present but not as
+   long as the read (/repo 8d67724), or the record has a CIGAR and bases and cigar_to_features
+   rejects them; in particular never for SEQ `*` (/repo 0049c20) and never for CIGAR `*`
+   (/repo fe42e80) with matching or missing quality scores *)
 Lemma roundtrip_invalid_input :
   forall sm refseq seq quals ops start,
+    let rl := record_read_length seq ops in
     roundtrip sm refseq seq quals ops start = RInvalidInput <->
-    cigar_to_features true refseq seq (writer_quals seq quals) ops start = None.
+    ((quals <> [] /\ len quals <> rl) \/ len refseq < start \/
+     (ops <> [] /\ seq <> [] /\
+      cigar_to_features true refseq seq (record_quals rl quals) ops start = None)).
 Proof.
-  intros sm refseq seq quals ops start. unfold roundtrip.
-  destruct (cigar_to_features true refseq seq (writer_quals seq quals) ops start) as [ws|] eqn:Hw.
-  - split; [|discriminate].
-    destruct (encode_features sm ws); [|discriminate].
-    destruct (len seq =? 0); [discriminate|].
-    destruct (rebuild_seq refseq sm _ start 1 (len seq)); discriminate.
-  - split; reflexivity.
+  intros sm refseq seq quals ops start rl. unfold roundtrip. fold rl.
+  destruct (N.eqb_spec (len (record_quals rl quals)) rl) as [E|E]; cbn [negb].
+  - assert (Hq : ~ (quals <> [] /\ len quals <> rl)).
+    { intros [A B]. apply record_quals_len in E. destruct E; contradiction. }
+    destruct (N.ltb_spec (len refseq) start) as [Hs|Hs]; [split; [intros _; right; now left|reflexivity]|].
+    unfold record_features. destruct ops as [|o ops']; cbn [is_aligned].
+    + split.
+      * destruct seq; cbn [encode_features encode_feature]; try discriminate.
+        destruct (rebuild_seq _ _ _ _ _ _); discriminate.
+      * intros [H|[H|[H _]]]; [contradiction|lia|congruence].
+    + destruct seq as [|b seq'].
+      * split; [|intros [H|[H|(_ & H & _)]]; [contradiction|lia|congruence]].
+        destruct (encode_features sm _); discriminate.
+      * destruct (cigar_to_features true refseq (b :: seq') (record_quals rl quals) (o :: ops') start) as [ws|] eqn:Hw.
+        -- split; [|intros [H|[H|(_ & _ & H)]]; [contradiction|lia|discriminate]].
+           destruct (encode_features sm ws); [|discriminate].
+           destruct (rebuild_seq _ _ _ _ _ _); discriminate.
+        -- split; [|reflexivity]. intros _. right. right. repeat split; discriminate.
+  - split; [|reflexivity]. intros _. left.
+    split; [|intro H; apply E; apply record_quals_len; now right].
+    intro H. apply E. apply record_quals_len. now left.
 Qed.
 
 (* A read-consuming lookup with an empty quality vector: the single-base match branch looks
